@@ -136,6 +136,15 @@ CLAIMED = {
              'must continue there after an include that itself starts in GLOBAL under a fresh file scope; a file included twice '
              '(directly, transitively, itself), a missing file and a name found in two search directories must be rejected.',
         note='Trusted: the admissibility rules of the split (vf/oracles/c17.py), vf/model/layout.py.'),
+    'C18': dict(
+        category='exploration', design_ref='DESIGN.md §3 C18',
+        technique='runtime monitoring: metamorphic surface-rewrite oracle — canonical vs rewritten renderings of one program '
+                  'AST through the real CLI',
+        text='Each generated program AST is rendered canonically and 17 (quick) / 29 (thorough) times with rewrites (mnemonic '
+             'and register case, space/tab runs in every token gap, indentation, blank lines, full-line and trailing comments, '
+             'label placement, joined instructions) — every kind alone, all together and random subsets; each rendering must '
+             'assemble to the canonical image.',
+        note='Trusted: the renderer in vf/oracles/c18.py only applies the rewrites the statement lists.'),
 }
 
 NOT_APPLICABLE = {}
